@@ -844,7 +844,29 @@ def tree_jobs(tier, want=None, extra=None, skip=None):
 KNOWN_DUP_JOBS = [
     dict(fam='mset-dups-32', A=('mset', ileaves(3, 'a'), 'dups'), B=('mset', ileaves(2, 'a'), 'dups'), weight=50, path_wall_s=6, replay_wall=6, region_job=True),
     dict(fam='mset-dups-22', A=('mset', ileaves(2, 'c'), 'dups'), B=('mset', ileaves(2, 'c'), 'dups'), weight=50, path_wall_s=6, replay_wall=6, region_job=True),
+    dict(fam='mset-dups-33', A=('mset', ileaves(3, 'd'), 'dups'), B=('mset', ileaves(3, 'd'), 'dups'), weight=50, path_wall_s=6, replay_wall=6, region_job=True),
+    dict(fam='mset-dups-31', A=('mset', ileaves(3, 'd'), 'dups'), B=('mset', ileaves(1, 'd'), 'dups'), weight=50, path_wall_s=6, replay_wall=6, region_job=True),
+    dict(fam='mset-dups-13', A=('mset', ileaves(1, 'd'), 'dups'), B=('mset', ileaves(3, 'd'), 'dups'), weight=50, path_wall_s=6, replay_wall=6, region_job=True),
+    dict(fam='mset-dups-L', A=('list', [('i', 1), ('mset', ileaves(3, 'd'), 'dups')]), B=('list', [('i', 1), ('mset', ileaves(2, 'd'), 'dups')]), weight=50, path_wall_s=6, replay_wall=6, region_job=True),
 ]
+
+
+def matcher_collapse_region(w):
+    """Narrow region of the listed finding 'multiset with equal members': the assignment matcher keys its tables by node,
+    so the defect needs an element of multiplicity >= 2 among the *unmatched* members of one side while the other side has
+    >= 2 unmatched members (only then can two equal nodes both be matched).  Flat multisets of scalars only; anything
+    nested falls back to the broad predicate."""
+    import collections
+    A, Bn = w.get('A'), w.get('B')
+    if not (builtins.isinstance(A, dict) and '__mset__' in A and builtins.isinstance(Bn, dict) and '__mset__' in Bn):
+        return has_duplicate_members(w)
+    a, b = A['__mset__'], Bn['__mset__']
+    if any(builtins.isinstance(x, (dict, list)) for x in a + b):
+        return has_duplicate_members(w)
+    ca, cb = collections.Counter(map(repr, a)), collections.Counter(map(repr, b))
+    rem, ins = ca - cb, cb - ca
+    nr, ni = sum(rem.values()), sum(ins.values())
+    return (max(rem.values(), default=0) >= 2 and ni >= 2) or (max(ins.values(), default=0) >= 2 and nr >= 2)
 
 
 def has_duplicate_members(w):
